@@ -31,7 +31,7 @@ INNER = [
 contract("nucs/solvers/bound_consistency_algorithm.py::bound_consistency_algorithm", types=ENGINE_T,
     props=["C01", "C02", "C03", "C05", "C07", "C08", "C10", "C16", "C17", "C13", "C19"],
     requires=WF_STATIC + WF_DYN, calls={"compute_domains_fct": "iface:Propagator"}, ghost_calls={"compute_domains_fct": "calls"},
-    ghost={"sigma": "int[D]"}, defs=[V_DEF], call_ghosts={"compute_domains_fct": {"pidx": "prop_idx", "tvec": "tv(prop_idx)"}},
+    ghost={"sigma": "int[D]"}, defs=[V_DEF, SOL_DEF], call_ghosts={"compute_domains_fct": {"pidx": "prop_idx", "tvec": "tv(prop_idx)"}},
     modifies=["statistics", "shr_domains_stack", "not_entailed_propagators_stack", "triggered_propagators"],
     loops={1: dict(fingerprint="while True", invariant=OUTER),
            2: dict(index="v", fingerprint="for range(prop_var_end - prop_var_start)", invariant=INNER)},
